@@ -79,6 +79,21 @@ def inside_lock_bracket(repo, fi, node, pred_for, depth=3):
     return go(fi, node, {}, depth)
 
 
+def operation_body(repo, fi, depth=2):
+    """the function that holds an operation's loops: <fi> itself, or - when <fi> is a wrapper without any loop (exception
+    safety, logging) - the one same-class helper it awaits / calls that has them"""
+    from ..pathrules import loop_heads as _lh
+    if depth <= 0 or fi.cls is None or _lh(cfg_of(fi)):
+        return fi
+    helpers = []
+    for n in walk_no_nested(fi.node):
+        if isinstance(n, ast.Call) and isinstance(n.func, ast.Attribute) and isinstance(n.func.value, ast.Name) and n.func.value.id == "self":
+            h_ = repo.all_methods(fi.cls).get(n.func.attr)
+            if h_ is not None and h_ is not fi and _lh(cfg_of(operation_body(repo, h_, depth - 1))) and all(h_ is not x for x in helpers):
+                helpers.append(h_)
+    return operation_body(repo, helpers[0], depth - 1) if len(helpers) == 1 else fi
+
+
 def retry_loop_rules(ctx, repo, fi, rule, sender_recv, var="retry_count"):
     """Shared by GeckoAsyncUdpProtocol.get (C06.R1) and GeckoAsyncStructure.get (C01.R5)."""
     g = cfg_of(fi)
@@ -348,7 +363,7 @@ def check(ctx):
     ctx.rule("R5", "wait_for_response: requires a positive timeout, yields every iteration; every request builder passes a timeout")
 
     ctx.rule("R6", "the status-block transfer is a request engine of its own and obeys the same bound: GeckoAsyncStructure.get has one loop governed by retry_count with a strict decrement on every cycle (whichever way the inner segment loop is left: timeout, gap, out-of-sequence final segment), one fresh request and one transmission per attempt")
-    sget = repo.own_method("GeckoAsyncStructure", "get")
+    sget = operation_body(repo, repo.own_method("GeckoAsyncStructure", "get"))
     from ..pathrules import loop_heads as _lh
     if len(_lh(cfg_of(sget))) >= 2 and calls_named(cfg_of(sget), "queue_send"):
         retry_loop_rules(ctx, repo, sget, "R6", "protocol")
